@@ -16,7 +16,8 @@ type consumptions struct {
 	sync.Map
 	count int32
 	// l serialises cache-then-broadcast (publisher) with snapshot-then-register
-	// (a joining consumer), so that a joiner sees every packet exactly once.
+	// (a joining consumer), so that a joiner sees every packet exactly once,
+	// and the removals, so that count always equals the number of entries.
 	l sync.Mutex
 }
 
@@ -29,6 +30,9 @@ func (m *consumptions) SendToAll(p Pack, keyframe bool) {
 }
 
 func (m *consumptions) RemoveAndCloseAll() {
+	m.l.Lock()
+	defer m.l.Unlock()
+
 	m.Range(func(key, value interface{}) bool {
 		c := value.(*consumption)
 		m.Delete(key)
@@ -45,6 +49,9 @@ func (m *consumptions) Add(c *consumption) {
 }
 
 func (m *consumptions) Remove(cid CID) *consumption {
+	m.l.Lock()
+	defer m.l.Unlock()
+
 	ci, ok := m.Load(cid)
 	if ok {
 		verifhook.Point("consumptions.remove.loaded", uint32(cid))
